@@ -816,7 +816,43 @@ private:"""),
     convex(convexity::yes);""", new="""    : function_t("trid", dims)
 {
     strong_convexity(1.0);
-    convex(convexity::yes);"""),]
+    convex(convexity::yes);"""),
+    # ---- C09
+    dict(property="C09", name="linear-accumulator-sum-drops-gW1", rule="R-C09-2", file="src/linear/accumulator.cpp",
+         old="    m_gW1 += other.m_gW1;\n", new=""),
+    dict(property="C09", name="linear-accumulator-clear-forgets-vm1", rule="R-C09-2", file="src/linear/accumulator.cpp",
+         old="    m_vm1 = 0.0;\n    m_gb1.zero();", new="    m_gb1.zero();"),
+    dict(property="C09", name="linear-loop-uses-accumulator-zero", rule="R-C09-3", file="src/linear/function.cpp",
+         old="auto& accumulator = m_accumulators[tnum];", new="auto& accumulator = m_accumulators[0];"),
+    dict(property="C09", name="linear-normalises-by-batch", rule="R-C09-1", file="src/linear/function.cpp",
+         old="::nano::sum_reduce(m_accumulators, m_iterator.samples().size());", new="::nano::sum_reduce(m_accumulators, m_iterator.batch());"),
+    dict(property="C09", name="linear-l1-gradient-not-averaged", rule="R-C09-4", file="src/linear/function.cpp",
+         old="gW.array() += m_l1reg * W.array().sign() / W.size();", new="gW.array() += m_l1reg * W.array().sign();"),
+    dict(property="C09", name="linear-l2-value-without-half", rule="R-C09-4", file="src/linear/function.cpp",
+         old="fx += 0.5 * (std::sqrt(m_l2reg) * W.array()).square().mean();", new="fx += (std::sqrt(m_l2reg) * W.array()).square().mean();"),
+    dict(property="C09", name="gboost-scale-values-not-sliced-by-range", rule="R-C09-3", file="src/gboost/function.cpp",
+         old="""            auto values = m_values.slice(range);
+            m_loss.value(targets, outputs, values);
+            accumulator.update(values);
+
+            if (gx.size() == x.size())""",
+         new="""            auto values = m_values.slice(make_range(0, range.size()));
+            m_loss.value(targets, outputs, values);
+            accumulator.update(values);
+
+            if (gx.size() == x.size())"""),
+    dict(property="C09", name="reduce-skips-last-accumulator", rule="R-C09-1", file="include/nano/core/reduce.h", tu="src/linear/function.cpp",
+         old="for (size_t i = 1; i < accumulators.size(); ++i)", new="for (size_t i = 1; i + 1 < accumulators.size(); ++i)"),
+    dict(property="C09", name="reduce-does-not-normalise", rule="R-C09-1", file="include/nano/core/reduce.h", tu="src/linear/function.cpp",
+         old="    return (accumulator0 /= samples);", new="    return accumulator0;"),
+    dict(property="C09", name="iterator-loop-shifts-range", rule="R-C09-5", file="src/dataset/iterator.cpp",
+         old="""            const auto range = make_range(begin, end);
+
+            callback(range, tnum, targets(tnum, range));""",
+         new="""            const auto range = make_range(begin, std::min(end + 1, samples().size()));
+
+            callback(range, tnum, targets(tnum, range));"""),
+]
 
 BENIGN = [
     dict(property="C07", name="get-descent-test-inlined", file="src/lsearchk.cpp",
@@ -943,4 +979,9 @@ BENIGN = [
          old="            fx += 0.5 * ro * (fc + mu / ro) * (fc + mu / ro);", new="            fx += 0.5 * ro * fc * fc + fc * mu + 0.5 * mu * mu / ro;"),
     dict(property="C06", name="mse-value-reassociated", file="include/nano/loss/flatten.h",
          old="return scalar_t(0.5) * (output - target).square().sum();", new="return ((target - output).square() * scalar_t(0.5)).sum();"),
+    dict(property="C09", name="linear-reduce-count-hoisted", file="src/linear/function.cpp",
+         old="    const auto& accumulator = ::nano::sum_reduce(m_accumulators, m_iterator.samples().size());",
+         new="    const auto samples = m_iterator.samples().size();\n    const auto& accumulator = ::nano::sum_reduce(m_accumulators, samples);"),
+    dict(property="C09", name="linear-l2-value-rewritten", file="src/linear/function.cpp",
+         old="fx += 0.5 * (std::sqrt(m_l2reg) * W.array()).square().mean();", new="fx += 0.5 * m_l2reg * W.array().square().sum() / static_cast<scalar_t>(W.size());"),
 ]
